@@ -49,10 +49,10 @@ def generate():
     blk = block_after(body[mo.start():], r"for\s+offset\s+in[^{]*\{", f"{what}: offset loop")
     if not re.search(r"let\s+mut\s+rowptr\s*=\s*data\[0\]\.as_mut_ptr\(\)\.add\(offset\)\s*;", blk):
         raise ExtractError(f"{what}: `rowptr = data[0].as_mut_ptr().add(offset)`")
-    mrow = re.search(r"for\s+i\s+in\s+rows\.clone\(\)\s*\{", blk)
+    mrow = re.search(r"for\s+\w+\s+in\s+rows\.clone\(\)\s*\{", blk)
     if not mrow:
         raise ExtractError(f"{what}: `for i in rows.clone()`")
-    row = block_after(blk[mrow.start():], r"for\s+i\s+in[^{]*\{", f"{what}: row loop")
+    row = block_after(blk[mrow.start():], r"for\s+\w+\s+in[^{]*\{", f"{what}: row loop")
     mj = re.search(r"for\s+_\s+in\s+0\s*\.\.\s*pssm\.rows\(\)\s*\{", row)
     if not mj:
         raise ExtractError(f"{what}: `for _ in 0..pssm.rows()`")
